@@ -167,3 +167,134 @@ async fn fault_enum() {
 	);
 	assert!(failures.is_empty());
 }
+
+// ------------------------------------------------------------------------------------------------
+// C15 / C07 bounded check (no fault hook needed): commits whose batch is around or far above what one memtable
+// can hold.  Whatever such a commit answers (success or an error), (1) a refused one leaves no trace, (2) the
+// commits AFTER it are accepted, (3) the store closes and OPENS AGAIN, with and without flush on close, and holds
+// exactly the acknowledged commits.  (Found F30: an oversized batch reached the WAL, poisoned the fresh memtable and
+// made the store unopenable.)
+// Bound (stated): memtable size 64 KiB; one transaction of 1 or 3 values of total size
+// {1/2, 0.9, 1, 1.1, 2, 8} x memtable size, placed first / in the middle of 4 small commits; flush_on_close on / off.
+#[tokio::test(flavor = "multi_thread", worker_threads = 2)]
+async fn oversize_enum() {
+	let cap = 64 * 1024usize;
+	let mut cases = 0u64;
+	let mut nontrivial = 0u64;
+	let mut failures: Vec<String> = Vec::new();
+	let mut samples: Vec<String> = Vec::new();
+	for &tenths in &[5usize, 9, 10, 11, 20, 80] {
+		for &nvals in &[1usize, 3] {
+			for &pos in &[0usize, 2] {
+				for &flush_on_close in &[true, false] {
+					cases += 1;
+					let total = cap * tenths / 10;
+					let dir = tempdir::TempDir::new("verif_c15o").unwrap();
+					let build = || TreeBuilder::new().with_path(dir.path().to_path_buf()).with_max_memtable_size(cap).with_flush_on_close(flush_on_close).build();
+					let tree = match build() {
+						Ok(t) => t,
+						Err(e) => {
+							failures.push(format!("\"open failed: {e}\""));
+							continue;
+						}
+					};
+					let mut model: std::collections::BTreeMap<Vec<u8>, usize> = Default::default();
+					let mut refused_keys: Vec<Vec<u8>> = Vec::new();
+					let mut bad: Option<String> = None;
+					let mut big_result = String::new();
+					for step in 0..5usize {
+						let mut tx = tree.begin().unwrap();
+						tx.set_durability(Durability::Immediate);
+						let mut keys: Vec<(Vec<u8>, usize)> = Vec::new();
+						if step == pos {
+							for j in 0..nvals {
+								keys.push((format!("big{j}").into_bytes(), total / nvals));
+							}
+						} else {
+							keys.push((format!("s{step}").into_bytes(), 10));
+						}
+						for (k, n) in &keys {
+							tx.set(k.clone(), vec![b'x'; *n]).unwrap();
+						}
+						match tx.commit().await {
+							Ok(()) => {
+								for (k, n) in keys {
+									model.insert(k, n);
+								}
+								if step == pos {
+									big_result = "accepted".to_string();
+								}
+							}
+							Err(e) => {
+								if step == pos {
+									big_result = format!("refused ({e})");
+									refused_keys.extend(keys.into_iter().map(|x| x.0));
+								} else {
+									bad = Some(format!("small commit #{step} (after the large one at #{pos}) failed: {e}"));
+									break;
+								}
+							}
+						}
+					}
+					if big_result.starts_with("refused") {
+						nontrivial += 1;
+					}
+					let check = |t: &crate::Tree, when: &str| -> Option<String> {
+						let rd = t.begin().ok()?;
+						for (k, n) in &model {
+							match rd.get(k.clone()) {
+								Ok(Some(v)) if v.len() == *n => {}
+								other => return Some(format!("{when}: acknowledged key {} reads {:?}", String::from_utf8_lossy(k), other.map(|o| o.map(|v| v.len())).map_err(|e| e.to_string()))),
+							}
+						}
+						for k in &refused_keys {
+							if let Ok(Some(_)) = rd.get(k.clone()) {
+								return Some(format!("{when}: key {} of the REFUSED commit is readable", String::from_utf8_lossy(k)));
+							}
+						}
+						None
+					};
+					if bad.is_none() {
+						bad = check(&tree, "before close");
+					}
+					if bad.is_none() {
+						if let Err(e) = tree.close().await {
+							bad = Some(format!("close failed: {e}"));
+						}
+					}
+					drop(tree);
+					if bad.is_none() {
+						let mut r = build();
+						let mut waited = 0;
+						while r.is_err() && waited < 5000 && r.as_ref().err().map(|e| e.to_string().contains("locked")).unwrap_or(false) {
+							tokio::time::sleep(std::time::Duration::from_millis(50)).await;
+							waited += 50;
+							r = build();
+						}
+						match r {
+							Err(e) => bad = Some(format!("the store does not open again: {e}")),
+							Ok(t2) => {
+								bad = check(&t2, "after reopen");
+								let _ = t2.close().await;
+							}
+						}
+					}
+					let desc = format!("\"large transaction: {nvals} value(s), {total} bytes in all ({}% of the memtable), as commit #{pos} of 5, flush_on_close={flush_on_close}: {big_result}\"", tenths * 10);
+					if let Some(b) = bad {
+						if failures.len() < 5 {
+							failures.push(format!("{{\"case\":{desc},\"mismatch\":{:?}}}", b));
+						}
+					} else if samples.len() < 3 && big_result.starts_with("refused") {
+						samples.push(desc);
+					}
+				}
+			}
+		}
+	}
+	println!(
+		"REPLAY-RESULT {{\"driver\":\"commit::oversize_enum\",\"cases\":{cases},\"distinct_nontrivial\":{nontrivial},\"samples\":[{}],\"failures\":[{}]}}",
+		samples.join(","),
+		failures.join(",")
+	);
+	assert!(failures.is_empty());
+}
